@@ -417,3 +417,6 @@ func (p Prop[C]) Enumerate(t *testing.T, st *Stats, cases func(yield func(C) boo
 		return true
 	})
 }
+
+// EnvStr reads a string knob.
+func EnvStr(name string) string { return os.Getenv(name) }
